@@ -99,7 +99,14 @@ func loadWorld(repo string, useVTA bool) (*World, error) {
 	}
 	w.allFuncs = ssautil.AllFunctions(prog)
 	for fn := range w.allFuncs {
-		if fn.Pkg == nil || fn.Blocks == nil {
+		if fn.Blocks == nil {
+			continue
+		}
+		// an instantiation of a generic function of the repo is a subject like any other function (it has no package of its own)
+		if fn.Pkg == nil {
+			if o := fn.Origin(); o != nil && o != fn && (o.Pkg == w.Model || o.Pkg == w.Parser || o.Pkg == w.Cmd) && fn.Synthetic != "" && strings.Contains(fn.Synthetic, "instan") {
+				w.srcFuncs = append(w.srcFuncs, fn)
+			}
 			continue
 		}
 		if fn.Pkg == w.Model || fn.Pkg == w.Parser || fn.Pkg == w.Cmd {
@@ -240,6 +247,21 @@ func (w *World) reachable(roots []*ssa.Function, keep func(*ssa.Function) bool) 
 		}
 	}
 	return seen
+}
+
+// pkgOfFunc: the package a function belongs to: its own, its enclosing function's (closures), its generic origin's (instantiations).
+func pkgOfFunc(fn *ssa.Function) *ssa.Package {
+	for i := 0; i < 4 && fn != nil; i++ {
+		if fn.Pkg != nil {
+			return fn.Pkg
+		}
+		if o := fn.Origin(); o != nil && o != fn {
+			fn = o
+			continue
+		}
+		fn = fn.Parent()
+	}
+	return nil
 }
 
 func (w *World) isRepoFunc(fn *ssa.Function) bool {
